@@ -30,6 +30,7 @@ from django_components.context import _COMPONENT_CONTEXT_KEY, _INJECT_CONTEXT_KE
 from django_components.node import BaseNode
 from django_components.perfutil.component import component_context_cache
 from django_components.util.component_highlight import apply_component_highlight
+from django_components.util.context import snapshot_context
 from django_components.util.exception import add_slot_to_error_message
 from django_components.util.logger import trace_component_msg
 from django_components.util.misc import get_index, get_last_index, is_identifier
@@ -130,22 +131,21 @@ class SlotRef:
     of the slot.
     """
 
-    def __init__(self, slot: "SlotNode", context: Context):
+    def __init__(self, slot: "SlotNode", context: Context, is_filled: bool = True):
         self._slot = slot
         self._context = context
         # NOTE: The default content belongs to the place where the `{% slot %}` tag is defined. But
-        # the Context object is modified by the time the fill is rendered (e.g. in the "django" mode it is
+        # the Context object is modified by the time the fill is rendered: In the "django" mode it is
         # the very Context in which the fill is rendered, and it then points to the component where
-        # the fill was defined). So we remember the layers as they are now.
-        self._context_layers = context.dicts[:]
-        self._render_context_layers = context.render_context.dicts[:]
+        # the fill was defined. And when the fill passes the default content on into another component,
+        # it is rendered only later, when e.g. the `{% for %}` loop around the slot has moved on.
+        # So we remember the Context as it is now.
+        # NOTE: Done only if the slot is filled - the default content of an unfilled slot is rendered right away.
+        self._context_snapshot = snapshot_context(context) if is_filled else context
 
     # Render the slot when the template coerces SlotRef to string
     def __str__(self) -> str:
-        context = copy(self._context)
-        context.dicts = self._context_layers[:]
-        context.render_context.dicts = self._render_context_layers[:]
-        return mark_safe(self._slot.nodelist.render(context))
+        return mark_safe(self._slot.nodelist.render(self._context_snapshot))
 
 
 class SlotIsFilled(dict):
@@ -462,7 +462,7 @@ class SlotNode(BaseNode):
             if key.startswith(_INJECT_CONTEXT_KEY_PREFIX):
                 extra_context[key] = value
 
-        slot_ref = SlotRef(self, context)
+        slot_ref = SlotRef(self, context, is_filled=slot_fill.is_filled)
 
         # For the user-provided slot fill, we want to use the context of where the slot
         # came from (or current context if configured so)
